@@ -163,6 +163,23 @@ def run_case(case, rec, cid, begin=True):
                offs2=[proj_dur(mk_dur(x)) for x in case["offs2"]], total=bool(case["total"]), tlen=tlen, parsed=parsed, d=d,
                out=render.codes(out), code=code, traceback=esc is not None, cls=type(esc).__name__ if esc else "", **cm)
         return True
+    if k == "total":      # --as-total=UNIT with a duration argument
+        from harness.drivers.c10 import dur_text
+        item = dur_text(case["gd"])
+        argv = base_args(case) + ["--as-total=" + case["unit"], item]
+        out, code, msg, esc = run_cli(argv, case["envcal"], case["sys"])
+        parsed, tlen = False, [0, 0, 0]
+        if code == 0 and esc is None:
+            try:
+                unit = {"s": 1, "m": 60, "h": 3600}[case["unit"].lower()]
+                us = int(round(Fraction(float(out.strip())) * unit * MEG))
+                dd, rem = divmod(us, DAY * MEG)
+                tlen, parsed = [I(dd), I(rem // MEG), I(rem % MEG)], True
+            except ValueError:
+                pass
+        rec.ev("CliTotal", cid, gd=case["gd"], tlen=tlen, parsed=parsed, out=render.codes(out), code=code,
+               traceback=esc is not None, cls=type(esc).__name__ if esc else "", **cm)
+        return True
     if k == "bad":
         out, code, msg, esc = run_cli(base_args(case) + case["argv"], case["envcal"], case["sys"])
         rec.ev("CliBad", cid, argv=[render.codes(a) for a in case["argv"]], code=code, msg=msg, traceback=esc is not None,
@@ -298,6 +315,15 @@ def expand(job):
             yield dict(base, kind="diff", g=pick_g(rnd, m, forms), g2=pick_g(rnd, m, forms),
                        offs=[dict(rnd.choice(OFFS)) for _ in range(rnd.choice([0, 0, 1]))],
                        offs2=[dict(rnd.choice(OFFS)) for _ in range(rnd.choice([0, 0, 1]))], total=rnd.choice([None, None, "s", "M", "h", "H"]))
+        elif x < 0.74:
+            gd = {"neg": rnd.random() < 0.3, "wk": False, "w": 0, "ds": [], "sep": 44}
+            for k_, hi in (("y", 30), ("mo", 40), ("d", 800), ("h", 100), ("mi", 3000), ("s", 100000)):
+                gd[k_] = rnd.choice([-1, -1, 0, 1, rnd.randint(0, hi)])
+            if all(gd[k_] < 0 for k_ in ("y", "mo", "d", "h", "mi", "s")):
+                gd["d"] = rnd.randint(0, 9)
+            if rnd.random() < 0.15:
+                gd = {"neg": rnd.random() < 0.3, "wk": True, "w": rnd.randint(0, 60), "y": -1, "mo": -1, "d": -1, "h": -1, "mi": -1, "s": -1, "ds": [], "sep": 44}
+            yield dict(base, kind="total", gd=gd, unit=rnd.choice(["s", "S", "m", "M", "h", "H"]))
         elif x < 0.85:
             fmt = rnd.choice([1, 3, 3, 4])
             ga = pick_g(rnd, m, [f for f in forms if f["wf"] and f["tform"] != "none"], need_time=True)
